@@ -60,6 +60,10 @@ CHECKS = {
                      "The translator lists every syntactic site where a set is iterated, popped, unpacked or converted (22 today) on every run; each must be in the audited table with its justification, so removing a sorted() or adding a set iteration leaves the proof no longer covering the code. "
                      "The real pipeline is run in separate processes under 4 (quick) / 32 (thorough) hash seeds on closed CFGs with hash-sensitive names, source programs (incl. regenerated text) and bytecode functions; digests of exact canonical dumps must coincide.", ref="§7 C12",
                 note="Trusted: Lean kernel + standard axioms; the audit's type inference (a missed set use is only visible to the multi-seed runs); justifications of non-sorted sites are arguments except where a theorem is named (work-list fix-point confluence is not proved; its result is compared with an order-free definition in C13)."),
+    "C15": dict(cat="translation_validation", tech="Lean 4: verified comparison decider sameHier (sameHier_sound) on exported original vs. re-read graphs for dict and YAML, chains, and continuation of the pipeline on re-read graphs",
+                text="At every stage prefix of the real pipeline on every generated closed CFG (and a bytecode graph) the graph is written and re-read through to_dict/from_dict and to_yaml/from_yaml; Scfg.C15.sameHier_sound proves that a true answer of the Lean decider means entry-by-entry equality of every field the property lists; "
+                     "the second dictionary must equal the first, write-read-write-read must be stable, and the next pipeline stage runs on the re-read graph.", ref="§7 C15",
+                note="Trusted: Lean kernel + standard axioms; exporter; PyYAML. No Lean model of the reader/writer yet: the quantifier over graphs is by enumeration."),
 }
 
 NOT_YET = {}
